@@ -174,6 +174,60 @@ Proof.
     now injection Hf as <-.
 Qed.
 
+(* ------------------------------------------------------------------ phase moves of the engine: where they lead *)
+Definition pre_blocks (p : pphase) : Prop := p = PStart \/ p = PBypass \/ p = PPre.
+
+(* a move that ends outside the blocks does not go back before them; one that enters a block comes from before the
+   blocks (block 0) or from the block before *)
+Lemma p_eps_phase sh s s' :
+  p_eps sh s = Some s' ->
+  (s_ph s' <> PBlocks -> pre_blocks (s_ph s') -> pre_blocks (s_ph s))
+  /\ (s_ph s' = PBlocks -> pre_blocks (s_ph s) \/ (s_ph s = PBlocks /\ (s_cb s' = s_cb s \/ s_cb s' = S (s_cb s)))).
+Proof.
+  unfold p_eps, pre_blocks. intro H.
+  destruct (s_ph s) eqn:Ep.
+  - destruct (status_eqb _ Running); [|discriminate]. injection H as <-. cbn. split; [auto|discriminate].
+  - destruct (g_bypass (sh_groups sh)).
+    + destruct (once_done true _ _) as [[x [|]]|]; try discriminate; injection H as <-; cbn; (split; [auto|discriminate]).
+    + injection H as <-. cbn. split; [auto|discriminate].
+  - destruct (once_done _ (t_pre (s_g s)) _) as [[x v1]|]; [|discriminate].
+    destruct (once_done _ (t_cont (s_g s)) _) as [[y v2]|]; [|discriminate].
+    destruct (v1 && v2); injection H as <-; cbn; split; auto; discriminate.
+  - destruct (block_of sh (s_cb s)) as [bs|].
+    + destruct (b_eps bs (s_img s) (s_cb s) (p_visible s) (s_b s)) as [[b'|[|]]|]; try discriminate; injection H as <-.
+      * cbn. rewrite Ep. split; [intro Q; now elim Q|]. intros _. right. auto.
+      * cbn. split; [intros _ [Q|[Q|Q]]; discriminate|discriminate].
+      * unfold enter_block. destruct (block_of sh (S (s_cb s))); cbn; rewrite Ep; (split; [intro Q; now elim Q|]); intros _; right; auto.
+    + injection H as <-. cbn. split; [intros _ [Q|[Q|Q]]; discriminate|discriminate].
+  - destruct (thr_live (s_thr s)).
+    + destruct (g_settle _ _) as [x|]; [|discriminate]. injection H as <-.
+      destruct (g_dead x); cbn; rewrite ?Ep; (split; [intros _ [Q|[Q|Q]]; discriminate|discriminate]).
+    + destruct (once_done _ (t_post (s_g s)) _) as [[x v]|]; [|discriminate]. injection H as <-. cbn.
+      split; [intros _ [Q|[Q|Q]]; discriminate|discriminate].
+  - destruct (thr_live (s_thr s)).
+    + destruct (g_settle _ _) as [x|]; [|discriminate]. injection H as <-. cbn. rewrite Ep.
+      split; [intros _ [Q|[Q|Q]]; discriminate|discriminate].
+    + destruct (once_done _ (t_deferred (s_g s)) _) as [[x v]|]; [|discriminate]. injection H as <-. cbn.
+      split; [intros _ [Q|[Q|Q]]; discriminate|discriminate].
+  - discriminate.
+  - discriminate.
+Qed.
+
+(* ExecuteBlock pops finished blocks: the block it lands on is not before the one it started from *)
+Lemma r_enter_ge sh m s cb :
+  exists cb', cb <= cb'
+    /\ r_enter sh m s cb = with_block s cb' (match block_of sh cb' with Some bs => rb_init bs m cb' | None => b_none end)
+    /\ (block_of sh cb' <> None -> is_terminal (mst m (OBlock cb')) = false).
+Proof.
+  unfold r_enter. remember (skipn cb (sh_blocks sh)) as bl eqn:E. revert cb E.
+  induction bl as [|bs bl IH]; intros cb E; simpl.
+  - exists cb. split; [lia|]. symmetry in E. apply skipn_nil_nth in E. unfold block_of. rewrite E. split; [reflexivity|]. intro H. contradiction.
+  - symmetry in E. destruct (skipn_nth _ _ _ _ E) as [Hn Hs].
+    destruct (is_terminal (mst m (OBlock cb))) eqn:Et.
+    + destruct (IH (S cb)) as (cb' & Hle & H1 & H2); [symmetry; exact Hs|]. exists cb'. split; [lia|]. split; assumption.
+    + exists cb. split; [lia|]. unfold block_of. rewrite Hn. split; [reflexivity|]. intros _. exact Et.
+Qed.
+
 Section MemInv.
 Variable sh : shape.
 Variable I : dimg.
@@ -266,18 +320,18 @@ Proof.
   intro E. apply Hni. rewrite <- E. change b with (fst (b, qs')). now apply in_map.
 Qed.
 
-Lemma M_update r r' b q rs x y :
-  Inv sh I r -> M r -> in_blocks sh r b -> seq_of sh b q = Some rs ->
+Lemma M_update_gen r r' b q x y :
+  Inv sh I r -> M r -> in_blocks sh r b ->
   (forall b' q' rs', seq_of sh b' q' = Some rs' -> (b', q') <> (b, q) -> msame (mget r) (mget r') b' q' (length rs')) ->
   (forall a, obj_in_shape sh (OAct a) = true -> act_ok (mget r' (OAct a))) ->
-  scons (mget r') b q (length rs) ->
+  (forall rs, seq_of sh b q = Some rs -> scons (mget r') b q (length rs)) ->
   (forall b', mst (mget r') (OBlock b') = mst (mget r) (OBlock b')) ->
   r_ph r' = r_ph r -> r_pl r' = r_pl r -> same_ctl (r_s r) (r_s r') ->
   nth_error (seqs_of (r_s r)) q = Some x -> seqs_of (r_s r') = upd (seqs_of (r_s r)) q y -> y <> SIdle ->
-  cur_ok r' b q (length rs) y ->
+  (forall rs, seq_of sh b q = Some rs -> cur_ok r' b q (length rs) y) ->
   M r'.
 Proof.
-  intros Hi HM Hin Hq Hsame Hact Hsc Hblk Hph Hpl (Hsp & Hcb & _) Hx Hsq Hy Hcur.
+  intros Hi HM Hin Hsame Hact Hsc Hblk Hph Hpl (Hsp & Hcb & _) Hx Hsq Hy Hcur.
   pose proof HM as [Ma Ms Mc Mw Mn Mt].
   assert (Hb : b = s_cb (r_s r)) by (destruct Hin as [[_ E] _]; now symmetry).
   assert (Hin' : forall b0, in_blocks sh r' b0 -> in_blocks sh r b0).
@@ -287,12 +341,12 @@ Proof.
   constructor.
   - exact Hact.
   - intros b' q' rs' Hq'. destruct (pair_dec (b', q') (b, q)) as [E|Hne].
-    + injection E as -> ->. rewrite Hq in Hq'. injection Hq' as <-. exact Hsc.
+    + injection E as -> ->. now apply Hsc.
     + eapply msame_scons; [apply Hsame; eauto|eauto].
   - intros b0 q' rs' x' Hi0 Hq' Hx'. pose proof (Hin' _ Hi0) as Hi1.
     assert (b0 = b) by (destruct Hi1 as [[_ E] _]; congruence). subst b0.
     rewrite Hnth in Hx'. destruct (Nat.eqb q q') eqn:Eq.
-    + apply Nat.eqb_eq in Eq. subst q'. injection Hx' as <-. rewrite Hq in Hq'. injection Hq' as <-. exact Hcur.
+    + apply Nat.eqb_eq in Eq. subst q'. injection Hx' as <-. now apply Hcur.
     + apply Nat.eqb_neq in Eq. unfold cur_ok. rewrite Hph. eapply msame_cur; [apply Hsame; [exact Hq'|]|].
       * intro E. injection E as E. apply Eq. now symmetry.
       * exact (Mc b q' rs' x' Hi1 Hq' Hx').
@@ -316,6 +370,24 @@ Proof.
     { intro E. injection E as -> ->. unfold upcoming in Hup'. destruct Hin as [[Hp Hc] _]. rewrite Hp, Hc in Hup'. lia. }
     destruct (Hsame b0 q0 rs0 Eq0 Hd) as [E _]. unfold sstat. rewrite E. apply Mn; auto. rewrite Eq0. discriminate.
   - intros todo Ht. apply Mt. congruence.
+Qed.
+
+
+Lemma M_update r r' b q rs x y :
+  Inv sh I r -> M r -> in_blocks sh r b -> seq_of sh b q = Some rs ->
+  (forall b' q' rs', seq_of sh b' q' = Some rs' -> (b', q') <> (b, q) -> msame (mget r) (mget r') b' q' (length rs')) ->
+  (forall a, obj_in_shape sh (OAct a) = true -> act_ok (mget r' (OAct a))) ->
+  scons (mget r') b q (length rs) ->
+  (forall b', mst (mget r') (OBlock b') = mst (mget r) (OBlock b')) ->
+  r_ph r' = r_ph r -> r_pl r' = r_pl r -> same_ctl (r_s r) (r_s r') ->
+  nth_error (seqs_of (r_s r)) q = Some x -> seqs_of (r_s r') = upd (seqs_of (r_s r)) q y -> y <> SIdle ->
+  cur_ok r' b q (length rs) y ->
+  M r'.
+Proof.
+  intros Hi HM Hin Hq Hsame Hact Hsc Hblk Hph Hpl Hctl Hx Hsq Hy Hcur.
+  apply (M_update_gen r r' b q x y); auto.
+  - intros rs1 E. rewrite Hq in E. injection E as <-. exact Hsc.
+  - intros rs1 E. rewrite Hq in E. injection E as <-. exact Hcur.
 Qed.
 
 (* ------------------------------------------------------------------ a write one of the engine's handlers takes *)
@@ -423,5 +495,89 @@ Proof.
     + assert (Hf : failedc (acell (mget r') b q i)) by (rewrite Hnew; repeat split; auto; exact (Oap _ _ eq_refl)).
       apply (M_update r r' b q rs0 (SRun i (APend false k)) (SPend false)); auto; try reflexivity; try discriminate.
       unfold cur_ok, cur_okm. split; [exact Hst|]. exists i. split; [exact Hi0|]. split; [exact Hpre'|]. split; [exact Hf|exact Hsuf'].
+Qed.
+
+(* ------------------------------------------------------------------ plugin events *)
+Lemma M_inner r s' q i a a' :
+  Inv sh I r -> M r -> (exists b bs, cur_block sh (r_s r) b = Some bs) ->
+  moves (r_s r) s' q (SRun i a) (SRun i a') -> apend_pos a' -> M (with_s r s').
+Proof.
+  intros Hi HM (b & bs & Hc) Hm Hap. destruct (cur_in_blocks _ _ _ _ Hc) as [Hin _]. pose proof Hm as (Hctl & Hx & Hsq).
+  apply (M_update_gen r (with_s r s') b q (SRun i a) (SRun i a')); auto; try reflexivity; try discriminate.
+  - intros b' q' rs' _ _. apply msame_refl.
+  - apply (m_act r HM).
+  - intros rs Hq. exact (m_seq r HM b q rs Hq).
+  - intros rs Hq. pose proof (m_cur r HM b q rs _ Hin Hq Hx) as (A & B & C & _ & E).
+    unfold cur_ok, cur_okm. cbn [with_s r_ph]. change (mget (with_s r s')) with (mget r). auto.
+Qed.
+
+Lemma M_plugin r e r' :
+  Inv sh I r -> M r -> (forall o stt n ok rs, e <> EvWrite o stt n ok rs) -> (forall fin, e <> EvRelease fin) ->
+  option_map (with_s r) (handle sh (r_s r) e) = Some r' -> M r'.
+Proof.
+  intros Hi HM Hnw Hnr H. apply option_map_some in H as (s' & H & ->). destruct e as [a|a o|o stt n ok rs|snap|fin].
+  - simpl in H. destruct (released (r_s r)); [discriminate|]. destruct (h_start_spec _ _ _ _ H) as [_ Hs].
+    destruct a as [[|b] g i|b q i].
+    + now apply M_keep.
+    + now apply M_keep.
+    + destruct Hs as [(bs & Hc) (k & Hm)]. eapply M_inner; eauto. intros v k' E. discriminate.
+  - simpl in H. destruct (h_end_spec _ _ _ _ _ H) as [_ [Hk|(b & q & i & k & -> & (bs & Hc) & Hm)]].
+    + now apply M_keep.
+    + eapply M_inner; eauto. intros v k' E. discriminate.
+  - exfalso. eapply Hnw; eauto.
+  - simpl in H. unfold h_read in H.
+    assert (s' = r_s r) as ->.
+    { destruct (s_fin (r_s r)); [destruct (images_agree _ _ _); [|discriminate]|]; now injection H as <-. }
+    apply M_keep; [exact HM|]. split; [apply same_ctl_refl|reflexivity].
+  - exfalso. eapply Hnr; eauto.
+Qed.
+
+(* ------------------------------------------------------------------ the state chain changes phase outside the blocks *)
+Lemma M_phase r s' :
+  M r -> r_ph r = RRun -> s_ph s' <> PBlocks ->
+  (pre_blocks (s_ph s') -> pre_blocks (s_ph (r_s r))) -> (~ ended (with_s r s') -> ~ ended r) -> M (with_s r s').
+Proof.
+  intros [Ma Ms Mc Mw Mn Mt] Hrun Hout Hpre Hend. constructor; cbn [with_s r_ph r_s r_pl]; change (mget (with_s r s')) with (mget r).
+  - exact Ma.
+  - exact Ms.
+  - intros b q rs x [[H _] _]. cbn in H. contradiction.
+  - intros b q rs _ Hw. unfold waiting in Hw. cbn in Hw. rewrite Hrun in Hw. contradiction.
+  - intros _ Hne b q Hup. apply Mn; auto. unfold upcoming in *. cbn in Hup.
+    assert (Hp : pre_blocks (s_ph s')) by (unfold pre_blocks; destruct (s_ph s'); auto; contradiction).
+    destruct (Hpre Hp) as [E|[E|E]]; rewrite E; exact Logic.I.
+  - intros todo Ht. congruence.
+Qed.
+
+(* ... stays in the current block *)
+Lemma M_stay r s' :
+  M r -> s_ph s' = PBlocks -> s_ph (r_s r) = PBlocks -> s_cb s' = s_cb (r_s r) -> seqs_of s' = seqs_of (r_s r) -> M (with_s r s').
+Proof.
+  intros HM Hp' Hp Hcb Hsq. apply (M_view r (with_s r s')); auto; try reflexivity.
+  - intros b q rs _. apply msame_refl.
+  - cbn. congruence.
+Qed.
+
+(* ... enters block cb' *)
+Lemma M_enter r s' cb' :
+  M r -> r_ph r = RRun -> ~ ended r -> s_ph s' = PBlocks -> upcoming r cb' ->
+  (pre_blocks (s_ph (r_s r)) \/ s_ph (r_s r) = PBlocks) ->
+  (block_of sh cb' <> None -> is_terminal (mst (mget r) (OBlock cb')) = false) ->
+  M (with_s r (with_block s' cb' (match block_of sh cb' with Some bs => rb_init bs (mget r) cb' | None => b_none end))).
+Proof.
+  intros [Ma Ms Mc Mw Mn Mt] Hrun Hnend Hp' Hup Hold Hnt.
+  set (r' := with_s r (with_block s' cb' (match block_of sh cb' with Some bs => rb_init bs (mget r) cb' | None => b_none end))).
+  constructor; change (mget r') with (mget r).
+  - exact Ma.
+  - exact Ms.
+  - intros b q rs x [[_ H5] H6] Hq Hx. cbn in H5. subst b. specialize (Hnt H6).
+    unfold seqs_of in Hx. cbn in Hx. destruct (block_of sh cb') as [bs|] eqn:Eb; [|contradiction].
+    cbn in Hx. apply seq_init_nth in Hx as [-> Hlt]. unfold cur_ok, cur_okm, seq_init.
+    destruct (mst (mget r) (OSeq cb' q)) eqn:Est; try exact Logic.I; intros _;
+      (destruct (Mn Hrun Hnend cb' q Hup) as [E|[E|E]]; [rewrite Hq; discriminate|exact Hnt|exact E| |]);
+      unfold sstat in E; unfold mst in Est; congruence.
+  - intros b q rs _ Hw. unfold waiting in Hw. cbn in Hw. rewrite Hrun in Hw. contradiction.
+  - intros _ _ b q Hup'. apply Mn; auto. unfold upcoming in *. cbn in Hup'. rewrite Hp' in Hup'.
+    destruct Hold as [[E|[E|E]]|E]; rewrite E in *; try exact Logic.I. lia.
+  - intros todo Ht. cbn in Ht. congruence.
 Qed.
 End MemInv.
